@@ -167,18 +167,106 @@ def stmt_pool():
     return [{"k": "if", "a": a} for a in ifs], [{"k": "then", "a": a} for a in thens]
 
 
+SIG_P = {"p": ["A"], "q": ["A", "B"], "z": []}
+SIG_F = {"f": (["A"], "A"), "g": (["A", "B"], "B"), "c": ([], "A"), "h": (["A"], "E"), "Nil": ([], "E"), "Cons": (["A"], "E")}
+
+
+def well_typed(stmt, assign):
+    """does the statement respect the variable typing `assign` (var name -> type)?  (generator bias only:
+    the verdict always comes from Lang.tla)"""
+    ok = [True]
+
+    def ty(t, want):
+        if t["op"] == "var":
+            if want is not None and assign.get(t["n"]) != want:
+                ok[0] = False
+            return assign.get(t["n"])
+        if t["op"] == "wild":
+            return want
+        dom, cod = SIG_F[t["f"]]
+        if want is not None and cod != want:
+            ok[0] = False
+        for a, d in zip(t["args"], dom):
+            ty(a, d)
+        return cod
+    a = stmt["a"]
+    if a["t"] == "pred":
+        for x, d in zip(a["args"], SIG_P[a["p"]]):
+            ty(x, d)
+    elif a["t"] == "eq":
+        lt = ty(a["l"], None)
+        rt = ty(a["r"], None)
+        if lt != rt:
+            ok[0] = False
+    elif a["t"] == "def":
+        tt = ty(a["tm"], None)
+        if a["v"]["op"] == "var" and assign.get(a["v"]["n"]) != tt:
+            ok[0] = False
+    else:
+        if assign.get(a["v"]["n"]) != a["ty"]:
+            ok[0] = False
+    return ok[0]
+
+
+def pools(rnd):
+    """the statement pool, with probability 0.6 restricted to statements that are well typed for one
+    random typing of x and y (otherwise almost every random rule dies of a type conflict)"""
+    ifs, thens = stmt_pool()
+    if rnd.random() < 0.6:
+        assign = {"x": rnd.choice(["A", "A", "E"]), "y": rnd.choice(["A", "B", "B"])}
+        ifs = [s for s in ifs if well_typed(s, assign)]
+        thens = [s for s in thens if well_typed(s, assign)]
+    return ifs, thens
+
+
 def long_programs(rnd, n, lengths=(3, 4)):
     """seeded random rules of 3-4 statements, biased towards well-formed ones: statements are drawn
     from the pool, `if` statements first with probability 0.7 per position"""
-    ifs, thens = stmt_pool()
     out = []
     for _ in range(n):
+        ifs, thens = pools(rnd)
         ln = rnd.choice(lengths)
         prog = []
         for i in range(ln):
             p_if = 0.85 if i == 0 else (0.6 if i < ln - 1 else 0.2)
             prog.append(rnd.choice(ifs) if rnd.random() < p_if else rnd.choice(thens))
         out.append(prog)
+    return out
+
+
+def render_structured(prog):
+    """text of a structured rule and the map rule-relative line -> <<item, block, index>>"""
+    lines = ["rule r {"]
+    keys = {}
+    for i, it in enumerate(prog, 1):
+        if it["k"] == "branch":
+            for b, blk in enumerate(it["bs"], 1):
+                lines.append("  branch {" if b == 1 else "  } along {")
+                keys[len(lines)] = [i, 0, 0]
+                for j, st in enumerate(blk, 1):
+                    lines.append(f"    {st['k']} {atom(st['a'])};")
+                    keys[len(lines)] = [i, b, j]
+            lines.append("  }")
+        else:
+            lines.append(f"  {it['k']} {atom(it['a'])};")
+            keys[len(lines)] = [i, 0, 0]
+    lines.append("}")
+    return PRE + "\n".join(lines) + "\n", keys
+
+
+def structured_programs(rnd, n):
+    """seeded random rules with one branch statement (1-2 blocks of 1-2 statements), 0-2 statements
+    before and 0-1 after it; the reference verdict is Lang!ErrorsS, computed by LangTrace"""
+    out = []
+    for _ in range(n):
+        ifs, thens = pools(rnd)
+        pre = [rnd.choice(ifs) for _ in range(rnd.choice([0, 1, 1, 2]))]
+        blocks = []
+        for _b in range(rnd.choice([1, 2, 2])):
+            k = rnd.choice([1, 2])
+            blocks.append([(rnd.choice(ifs) if (j == 0 and rnd.random() < 0.7) or rnd.random() < 0.35 else rnd.choice(thens)) for j in range(k)])
+        post = [rnd.choice(ifs) if rnd.random() < 0.4 else rnd.choice(thens) for _ in range(rnd.choice([0, 1, 1]))]
+        out.append(pre + [{"k": "branch", "bs": blocks}] + post)
     return out
 
 
@@ -195,6 +283,9 @@ def run(tier, replay):
         rp = replay["replay"]
         if rp["ev"] == "prog":
             items.append(({"ev": "prog", "prog": rp["prog"]}, render(rp["prog"])))
+        elif rp["ev"] == "sprog":
+            text, keys = render_structured(rp["prog"])
+            items.append(({"ev": "sprog", "prog": rp["prog"], "_keys": keys}, text))
         else:
             items.append((dict(rp["event"]), rp["text"]))
     else:
@@ -221,6 +312,9 @@ def run(tier, replay):
         chosen += long_programs(rnd, 3000 if thorough else 150)
         for prog in chosen:
             items.append(({"ev": "prog", "prog": prog}, render(prog)))
+        for sp in structured_programs(rnd, 3000 if thorough else 200):
+            text, keys = render_structured(sp)
+            items.append(({"ev": "sprog", "prog": sp, "_keys": keys}, text))
         for label, text, kind, classes, line in symbol_mutants(rnd):
             if kind == "none":
                 items.append(({"ev": "valid", "label": label}, text))
@@ -236,9 +330,11 @@ def run(tier, replay):
     def one(x):
         i, (skel, text) = x
         rc, cls, ln, to = run_cli(text, work, i)
-        e = dict(skel)
+        e = {k: x for k, x in skel.items() if not k.startswith("_")}
         e.update({"id": i, "rc": rc, "cls": cls, "timeout": to,
                   "ln": (ln - NPRE - 1) if skel["ev"] == "prog" and ln else ln})
+        if skel["ev"] == "sprog":
+            e["key"] = skel["_keys"].get(ln - NPRE, [0, 0, 0]) if ln else [0, 0, 0]
         return e
     with ThreadPoolExecutor(16) as ex:
         events = list(ex.map(one, list(enumerate(items, 1))))
@@ -256,9 +352,9 @@ def run(tier, replay):
             continue
         seen.add(viol["id"])
         skel, text = items[viol["id"] - 1]
-        v.violation(f"{viol['what']}: {text[len(PRE):][:200] if skel['ev'] == 'prog' else skel.get('label')}",
-                    {"ev": skel["ev"], "prog": skel.get("prog"), "event": {k: x for k, x in skel.items() if k != "prog"}, "text": text})
-    nprog = sum(1 for s, _ in items if s["ev"] == "prog")
+        v.violation(f"{viol['what']}: {text[len(PRE):][:200] if skel['ev'] in ('prog', 'sprog') else skel.get('label')}",
+                    {"ev": skel["ev"], "prog": skel.get("prog"), "event": {k: x for k, x in skel.items() if k != "prog" and not k.startswith("_")}, "text": text})
+    nprog = sum(1 for s, _ in items if s["ev"] in ("prog", "sprog"))
     v.coverage = {"evaluations": len(items), "distinct_nontrivial": len({t for _, t in items}),
                   "rule": "one evaluation = one CLI run; programs: two-statement rules over the Lang.tla statement pool (stratified by the "
                           "set of error classes the reference assigns, plus a uniform sample), symbol-level single-defect mutants, and the "
